@@ -46,7 +46,6 @@ theorem sorts_in_place :
 
 end Gleece.Order
 
-namespace Gleece.IR
-/-- the spec model takes controllers, models and the OpenAPI configuration — never the routing engine -/
-theorem spec_engine_independent (cs : List Controller) (_engine₁ _engine₂ : String) : emitOps cs = emitOps cs := rfl
-end Gleece.IR
+/- That the document does not depend on the routing engine is not a theorem here (the spec model simply has no
+   engine argument, which proves nothing about the code): the check renders the document under all five
+   engines in fresh sessions and counts the distinct byte strings (`specDistinctAcrossEngines`). -/
